@@ -437,6 +437,61 @@ def cfgs(tier):
             for v in (1 << w, (1 << w) + 1):
                 yield 'EqualConstant w%d v%d out-of-range' % (w, v), eqk(EqualConstant, w, v, False)
 
+    # ---- wide data paths: beyond the 53-bit mantissa of a double and beyond one 64-bit machine word ("any width it accepts") ----
+    for w in ([64] if quick else [33, 54, 64, 65, 100]):
+        yield 'And n3 w%d' % w, nary(And, 3, w, lambda a, b: a & b)
+        yield 'Or n3 w%d' % w, nary(Or, 3, w, lambda a, b: a | b)
+        yield 'Xor n3 w%d' % w, nary(Xor, 3, w, lambda a, b: a ^ b)
+        c = nary(Nor, 2, w, lambda a, b: a | b)
+        yield 'Nor n2 w%d' % w, dict(c, spec=(lambda sp: lambda V: {'r': ~sp(V)['r']})(c['spec']))
+        yield 'And2 a%d b%d r%d' % (w, w, w), gate2(And2, w, w, w, lambda a, b: a & b)
+        yield 'Or2 a%d b%d r%d' % (w, w, w), gate2(Or2, w, w, w, lambda a, b: a | b)
+        yield 'Xor2 w%d' % w, gate2(Xor2, w, w, w, lambda a, b: a ^ b)
+        yield 'Nand2 w%d' % w, gate2(Nand2, w, w, w, lambda a, b: ~(a & b))
+        yield 'Nor2 w%d' % w, gate2(Nor2, w, w, w, lambda a, b: ~(a | b))
+        yield 'Not w%d' % w, un(Not, w, w, lambda a: ~a)
+        yield 'Buf a%d r%d' % (w, w + 2), un(Buf, w, w + 2, lambda a, w=w: zx(a, w + 2))
+        yield 'AndBits w%d' % w, un(AndBits, w, 1, lambda a, w=w: b1(a == z3.BitVecVal(-1, w)))
+        yield 'OrBits w%d' % w, un(OrBits, w, 1, lambda a: b1(a != 0))
+        for bit in (0, w - 1, w // 2):
+            yield 'Bit a%d bit%d' % (w, bit), un(Bit, w, 1, lambda a, bit=bit: z3.Extract(bit, bit, a), bit)
+        for hi, lo in ((w - 1, w - 8), (w - 1, 0), (w - 2, 1)):
+            rw = hi - lo + 1
+            yield 'Range a%d %d:%d r%d' % (w, hi, lo, rw), un(Range, w, rw, lambda a, hi=hi, lo=lo, rw=rw: zx(z3.Extract(hi, lo, a), rw), hi, lo)
+
+        def mk_rep_w(rw):
+            def build(s):
+                i, r = W(s, 'i', 1), W(s, 'r', rw)
+                Repeat(s, 'dut', i, r)
+                return {'i': i}, {'r': r}
+            return {'build': build, 'spec': lambda V: {'r': z3.If(V['i'] == 1, z3.BitVecVal(-1, rw), z3.BitVecVal(0, rw))}}
+        yield 'Repeat r%d' % w, mk_rep_w(w)
+        yield 'BitsLSBF w%d' % w, bits_cfg(BitsLSBF, w, False)
+        yield 'BitsMSBF w%d' % w, bits_cfg(BitsMSBF, w, True)
+        ws_ = (w // 2, w - w // 2, 3)
+        yield 'ConcatenateLSBF %s r%d' % ('_'.join(map(str, ws_)), w + 3), concat_cfg(ConcatenateLSBF, ws_, w + 3, False)
+        yield 'ConcatenateMSBF %s r%d' % ('_'.join(map(str, ws_)), w + 3), concat_cfg(ConcatenateMSBF, ws_, w + 3, True)
+        yield 'BufEnable w%d' % w, bufen(w)
+        yield 'Mux2 sel1 w%d' % w, mux2(1, w)
+        yield 'Mux k2 w%d' % w, mux(2, w)
+        yield 'Demux k1 w%d' % w, demux(1, w)
+        yield 'Select n2 w%d' % w, onehot_mux(Select, 2, w)
+        yield 'OneHotMux n3 w%d' % w, onehot_mux(OneHotMux, 3, w)
+        yield 'OneHotDemux n2 w%d' % w, onehot_demux(2, w)
+        yield 'SelectDefault n2 w%d' % w, seldef(2, w)
+        yield 'Swap w%d' % w, swap(w)
+        yield 'Equal w%d' % w, equal(w)
+        yield 'Comparator w%d' % w, cmp_cfg(w)
+        yield 'ComparatorSignedUnsigned w%d' % w, cmpsu_cfg(w)
+        yield 'Max2 w%d' % w, minmax(Max2, w, lambda a, b: z3.If(z3.UGE(a, b), a, b))
+        yield 'Min2 w%d' % w, minmax(Min2, w, lambda a, b: z3.If(z3.ULE(a, b), a, b))
+        yield 'SignedMax2 w%d' % w, minmax(SignedMax2, w, lambda a, b: z3.If(a >= b, a, b))
+        yield 'SignedMin2 w%d' % w, minmax(SignedMin2, w, lambda a, b: z3.If(a <= b, a, b))
+        yield 'AnyEqual n2 w%d' % w, anyeq(2, w)
+        for v in (0, (1 << w) - 1, 1 << (w - 1), (1 << 53) + 1):
+            yield 'EqualConstant w%d v%d' % (w, v), eqk(EqualConstant, w, v, False)
+            yield 'NotEqualConstant w%d v%d' % (w, v), eqk(NotEqualConstant, w, v, True)
+
 
 def replay(rec):
     from .c07 import replay as _r
